@@ -93,6 +93,9 @@ func Float(f float32) V {
 	return V{"s": int(b >> 31), "e": int(b >> 23 & 255), "f": int(b & 0x7FFFFF)}
 }
 
+// FloatBits exposes the IEEE-754 bits of a float32.
+func FloatBits(f float32) uint32 { return math.Float32bits(f) }
+
 func RunLength(c *rtcp.RunLengthChunk) V {
 	return V{"ct": "rl", "typ": int(c.Type), "sym": int(c.PacketStatusSymbol), "run": int(c.RunLength)}
 }
